@@ -1,0 +1,11 @@
+//go:build verif
+
+package azblobproxy
+
+import "github.com/buchgr/bazel-remote/v2/cache"
+
+// VerifObjectKey exposes the object name the backend built by New uses for an
+// entry (the Azure endpoint cannot be redirected to a local recorder).
+func VerifObjectKey(p cache.Proxy, hash string, kind cache.EntryKind) string {
+	return p.(*azBlobCache).objectKey(hash, kind)
+}
